@@ -2,7 +2,7 @@
 From PV Require Import Engine EngineProofs.
 Open Scope string_scope.
 Notation RG := (list val -> option string -> option string -> st -> R).
-Notation RP := (string -> option (list val) -> option string -> option string -> st -> R).
+Notation RP := (string -> option (list string) -> option (list val) -> option string -> option string -> st -> R).
 
 (** one entry, appended after the existing ones, carrying name, message, step, line, col,
     the formatted onError payload, the exception object and the swallowed flag; nothing
